@@ -120,6 +120,18 @@ def vectors(ctx):
                 v["tot"] = 1
                 v["case"] = ["borrowed", mod.__name__[-3:], k]
                 V.append(v)
+    # dispatcher routing of the pairwise decoder: every TC x TC pair (both parities orders), with and without a receiver
+    # location - judged with the full verdict (value inside the routed domain, RuntimeError for inconsistent pairs)
+    for tc0 in range(32):
+        for tc1 in range(32):
+            for oe0 in (0, 1):
+                f0 = gen.set_bits(gen.set_bits(gen.rand_frame_df(rng, rng.choice([17, 18])), 33, 37, tc0), 54, 54, oe0)
+                f1 = gen.set_bits(gen.set_bits(gen.rand_frame_df(rng, rng.choice([17, 18])), 33, 37, tc1), 54, 54, 1 - oe0)
+                hasref = rng.randrange(2)
+                V.append({"fn": "adsb.position", "f0": f0, "f1": f1, "t0": 1 + oe0, "t1": 2 - oe0, "ht": 0,
+                          "truth": [[0, 0], [0, 0]], "kind": "surf" if (5 <= tc0 <= 8 and 5 <= tc1 <= 8) else "air",
+                          "hasref": hasref, "r": rng.randrange(-200000, 200000), "s": rng.randrange(-500000, 500000), "dt": 0,
+                          "case": ["pair", tc0, tc1, oe0, hasref]})
     # tell() on every surface movement code and every TC19 / TC29 boundary frame
     for mov in range(128):
         f = gen.rand_frame_df(rng, 17)
